@@ -98,7 +98,17 @@ PROPS["C16"] = {
         "same product (a third of it) with 8 OnSession variants that put a Content-Type on the response before accepting / accepting with "
         "a status / rejecting, and with 17 providers refusing with the errors providers really return - sse.ErrProviderClosed, "
         "sse.ErrNoTopic, context.Canceled, context.DeadlineExceeded, each also wrapped (%w) and joined (errors.Join), an opaque error "
-        "that only reads like a sentinel - before and after sending; plus "
+        "that only reads like a sentinel - before and after sending; "
+        "ERROR CHARACTERS: the error of a failing Write/Flush is, two times out of three, not the harness's opaque type but one of 122 "
+        "values that ARE or WRAP a well-known sentinel (http.ErrNotSupported, ErrHandlerTimeout, ErrAbortHandler, ErrBodyNotAllowed, ErrHijacked, "
+        "ErrContentLength, ErrServerClosed, io.EOF, ErrUnexpectedEOF, ErrClosedPipe, ErrShortWrite, context.Canceled, DeadlineExceeded, "
+        "net.ErrClosed, os.ErrDeadlineExceeded, the library's four; each itself / wrapped with %w / behind an Unwrap method / matched by an Is "
+        "method / errors.Join-ed / inside *net.OpError; *net.OpError around write: EPIPE and ECONNRESET, EPIPE itself, Timeout() and "
+        "Temporary() errors, what http.NewResponseController(w).Flush() really returns for a writer without Flush); what Send/Flush "
+        "returned is projected back to the injected index by identity (== on the injected value, through the Unwrap chain). Every "
+        "character is additionally the error of the k-th operation for every k of four call sequences on the FlushError and Flusher routes, "
+        "the error of a writer that never recovers, and - through ServeHTTP - the error of the upgrade flush / a Write / a later flush and "
+        "the error the provider refuses with (keys error-character:*, characters:*, serve:characters:*); plus "
         "seeded random requests; 150 / 2000 random message/call sequences through a real net/http server and client on the loopback "
         "interface, half of them with a Content-Type preset by OnSession (status, Content-Type and whole body as the client receives them; key real-server, or real-server:unavailable). non-trivial = distinct inputs (every one runs against the real Session / Server)"),
     "assumptions": [
